@@ -40,7 +40,7 @@ def sh(cmd, cwd=None, env=None, timeout=3600, inp=None):
 
 
 class Stream:
-    def __init__(self, name, drv, sub, nontrivial=None, descr="", prepare=None, env=None, cmd=None, fields=None, binary="hrun"):
+    def __init__(self, name, drv, sub, nontrivial=None, descr="", prepare=None, env=None, cmd=None, fields=None, binary="hrun", select=None):
         self.name = name          # stream name
         self.drv = drv            # extracted generator: coq/gen_<drv>.ml -> build/modeldrv_<drv>
         self.sub = sub            # hrun sub-command
@@ -51,6 +51,7 @@ class Stream:
         self.cmd = cmd            # optional shell template replacing the hrun call: {cases} {obs} {root} {cache} {repo}
         self.fields = fields      # optional projection: keep only these `key=value` items (separated by ';')
         self.binary = binary      # which harness binary runs the stream (build/<binary>)
+        self.select = select      # optional predicate on the tag string: cases it rejects are not part of this stream
 
 
 class Check:
@@ -209,14 +210,14 @@ def run_stream(check, st, tier, seed, only_ids=None, cases_override=None):
     order = []
     for line in open(cases_path, encoding="utf-8", errors="replace"):
         f = line.rstrip("\n").split("\t")
-        if len(f) >= 5:
+        if len(f) >= 5 and (st.select is None or st.select(f[1])):
             f[3] = proj(f[3]); f[4] = " || ".join(proj(a) for a in f[4].split(" || "))
             cases[f[0]] = f
             order.append(f[0])
     obs = {}
     for line in open(obs_path, encoding="utf-8", errors="replace"):
         f = line.rstrip("\n").split("\t")
-        if len(f) >= 2:
+        if len(f) >= 2 and f[0] in cases:
             obs[f[0]] = proj(f[1])
     return {"cases": cases, "order": order, "obs": obs}
 
